@@ -138,6 +138,11 @@ pub fn source() -> Source {
     SOURCE.with(Cell::get)
 }
 
+/// Set the manual clock to an absolute value (nanoseconds since the start).
+pub fn set_manual(nanos: u64) {
+    MANUAL.with(|m| m.set(nanos));
+}
+
 /// Advance the manual clock.
 pub fn advance(d: Duration) {
     let nanos = u64::try_from(d.as_nanos()).unwrap_or(u64::MAX);
